@@ -129,6 +129,20 @@ def gen_main(sp, force_down):
     valid = b_and(a.seed >= 0, a.width > 0, a.length > 0, a.max_reward > 0, *[b_and(p > 0, p < 1) for p in probs4])
     if any(bool(p != p) for p in probs4):
         sp.cover("nan")
+    # an earlier run in the same process (other parameters) must leave no trace in this one's file name / calls
+    first = Args()
+    first.seed, first.width, first.length, first.max_reward = 3, 4, 2, 5
+    first.prob_robot_break, first.prob_light_break, first.prob_tile_break, first.prob_loose_tile = 0.2, 0.05, 0.15, 0.4
+    first.force_down = not force_down
+    cur_args = [first]
+
+    class Parser2:
+        def parse_args(self):
+            return cur_args[0]
+    gen.init_parser = lambda: Parser2()
+    gen.main()
+    del rec.calls[:]
+    cur_args[0] = a
     try:
         gen.main()
     except ValueError:
@@ -455,3 +469,51 @@ def gen_rnd_board(sp, L, W, m, fd):
                 sp.prove((3 in moves3[i]) == (not fd), "a call following one with the other force-down setting ignores its own setting")
             moves4, rewards4, loose4 = gen.gen_rnd_board(seed, L, W, p, m, fd)
             sp.prove(moves4 == moves and loose4 == loose, "board depends on earlier calls with other parameters")
+
+
+# ------------------------------------------------------------------ C15 / C17: the real argument parser (concrete)
+ARGV_CASES = [
+    (["-s", "9007199254740993", "-w", "2", "-l", "3"], dict(seed=9007199254740993, width=2, length=3)),
+    (["--seed", "100000000000000000001"], dict(seed=100000000000000000001)),
+    (["-s", "0"], dict(seed=0, width=3, length=3, max_reward=6, force_down=False)),
+    (["-p", "0.29", "-q", "0.57", "-r", "0.58", "-t", "0.07"], dict(prob_robot_break=0.29, prob_light_break=0.57, prob_tile_break=0.58, prob_loose_tile=0.07)),
+    (["-m", "12", "-f"], dict(max_reward=12, force_down=True)),
+    (["--width", "7", "--length", "1", "--max_reward", "1"], dict(width=7, length=1, max_reward=1)),
+    (["-p", "1e-3", "-t", "0.999"], dict(prob_robot_break=0.001, prob_loose_tile=0.999)),
+]
+
+
+@harness("gen.parser", props=["C15", "C17"], jobs=lambda tier, seed: [dict(k=k) for k in range(len(ARGV_CASES))], sentinel=True,
+         bounds="CONCRETE: 7 argument vectors incl. seeds beyond 2^53 and 2^64, boundary probabilities, every option in short and long form",
+         desc="CONCRETE (not a solver verdict): the real init_parser() delivers exactly the integers and doubles written on the command line "
+              "(no loss for huge seeds), documented defaults otherwise")
+def gen_parser(sp, k):
+    gen = repo.std().gen
+    argv, exp = ARGV_CASES[k]
+    ns = gen.init_parser().parse_args(argv)
+    defaults = dict(seed=0, width=3, length=3, prob_robot_break=0.1, prob_light_break=0.1, prob_tile_break=0.1, prob_loose_tile=0.3,
+                    max_reward=6, force_down=False)
+    for name, dv in defaults.items():
+        want = exp.get(name, dv)
+        got = getattr(ns, name)
+        sp.prove(type(got) is type(want) and got == want, "argument %s parsed as %r, written as %r" % (name, got, want))
+
+
+# ------------------------------------------------------------------ C15: the same board in every process
+@harness("gen.repro_processes", props=["C15"], jobs=lambda tier, seed: [dict(fd=f, seed=s) for f in (False, True) for s in (0, 7, 47)], sentinel=True,
+         bounds="CONCRETE: 3 seeds x force-down on/off, each generated in three separate interpreter processes with different PYTHONHASHSEED",
+         desc="CONCRETE (not a solver verdict): the board for a seed and parameter set is the same in every run of the tool, "
+              "whatever the interpreter's hash randomisation")
+def gen_repro_processes(sp, fd, seed):
+    import subprocess, sys, os
+    code = ("import sys; sys.path.insert(0, %r); import roberta_generator as g; "
+            "print(g.gen_rnd_board(%d, 4, 5, 0.3, 6, %r))" % (repo.REPO, seed, fd))
+    outs = []
+    for hs in ("0", "1", "4242"):
+        env = dict(os.environ, PYTHONHASHSEED=hs, PYTHONDONTWRITEBYTECODE="1")
+        r = subprocess.run([sys.executable, "-c", code], capture_output=True, text=True, env=env, timeout=120)
+        sp.prove(r.returncode == 0, "generator failed in a subprocess: %s" % r.stderr[-200:])
+        outs.append(r.stdout)
+    sp.prove(outs[0] == outs[1] == outs[2], "the same seed and parameters give different boards in different processes")
+    gen = repo.std().gen
+    sp.prove(outs[0].strip() == repr(gen.gen_rnd_board(seed, 4, 5, 0.3, 6, fd)), "board differs between this process and a fresh one")
